@@ -31,14 +31,17 @@ ADMITTED = {
 }
 
 CONSTS = {
-    # exhaustive run; thinned run = a seed-chosen random subtree of longer programs over four symbols
+    # exhaustive run; thinned run = a seed-chosen random subtree of longer programs over four symbols;
+    # chain run = exhaustive def-use chain family (one atom per right hand side, only defined symbols are read)
     "quick": (
-        dict(NSyms=3, MaxLen=3, MaxUses=2, MaxGuards=1, WithODE="TRUE", MaxFeat=3, MaxAdm=5, MinEmit=1, MaxRmSet=2, SampleMod=16, Thin=1, FullDepth=0),
-        dict(NSyms=4, MaxLen=6, MaxUses=2, MaxGuards=2, WithODE="TRUE", MaxFeat=9, MaxAdm=4, MinEmit=5, MaxRmSet=1, SampleMod=6, Thin=64, FullDepth=1),
+        dict(NSyms=3, MaxLen=3, MaxUses=2, MaxGuards=1, WithODE="TRUE", MaxFeat=3, MaxAdm=5, MinEmit=1, MaxRmSet=2, SampleMod=16, Thin=1, FullDepth=0, ChainMode="FALSE"),
+        dict(NSyms=4, MaxLen=6, MaxUses=2, MaxGuards=2, WithODE="TRUE", MaxFeat=9, MaxAdm=4, MinEmit=5, MaxRmSet=1, SampleMod=6, Thin=64, FullDepth=1, ChainMode="FALSE"),
+        dict(NSyms=4, MaxLen=5, MaxUses=1, MaxGuards=0, WithODE="FALSE", MaxFeat=9, MaxAdm=5, MinEmit=4, MaxRmSet=1, SampleMod=5, Thin=1, FullDepth=0, ChainMode="TRUE"),
     ),
     "thorough": (
-        dict(NSyms=3, MaxLen=3, MaxUses=2, MaxGuards=1, WithODE="TRUE", MaxFeat=5, MaxAdm=5, MinEmit=1, MaxRmSet=2, SampleMod=8, Thin=1, FullDepth=0),
-        dict(NSyms=4, MaxLen=8, MaxUses=2, MaxGuards=3, WithODE="TRUE", MaxFeat=12, MaxAdm=5, MinEmit=6, MaxRmSet=1, SampleMod=12, Thin=64, FullDepth=1),
+        dict(NSyms=3, MaxLen=3, MaxUses=2, MaxGuards=1, WithODE="TRUE", MaxFeat=5, MaxAdm=5, MinEmit=1, MaxRmSet=2, SampleMod=8, Thin=1, FullDepth=0, ChainMode="FALSE"),
+        dict(NSyms=4, MaxLen=8, MaxUses=2, MaxGuards=3, WithODE="TRUE", MaxFeat=12, MaxAdm=5, MinEmit=6, MaxRmSet=1, SampleMod=12, Thin=64, FullDepth=1, ChainMode="FALSE"),
+        dict(NSyms=4, MaxLen=6, MaxUses=1, MaxGuards=0, WithODE="FALSE", MaxFeat=9, MaxAdm=6, MinEmit=4, MaxRmSet=2, SampleMod=16, Thin=1, FullDepth=0, ChainMode="TRUE"),
     ),
 }
 INVARIANTS = ["T0_Machine", "T1_FullExpr", "T2_DepSound", "T3_DepBounds", "T4_Remove", "T4b_FixedRemove", "T5_Reassign", "T6_Subs", "T7_Used", "EmitCase"]
@@ -53,7 +56,7 @@ def _cfg(path, consts, seed):
 
 
 def _tlc_cases(tier: str, seed: int, v: core.Verdict):
-    ex_c, sim_c = CONSTS[tier]
+    ex_c, sim_c, ch_c = CONSTS[tier]
     d = core.scratch("c10")
     out: dict = {}
 
@@ -71,7 +74,9 @@ def _tlc_cases(tier: str, seed: int, v: core.Verdict):
         # (b) the exhaustive design-level run (no coverage instrumentation: twice as fast)
         ("ex", lambda: core.run_tlc(SPEC / "Statements.tla", _cfg(d / "ex.cfg", ex_c, seed), workers=8, timeout=to, coverage=False)),
         # (c) longer programs over four symbols: exhaustive search of a random (VERIF_SEED) subtree
-        ("sim", lambda: core.run_tlc(SPEC / "Statements.tla", _cfg(d / "sim.cfg", sim_c, seed), workers=8, timeout=to, coverage=False)),
+        ("sim", lambda: core.run_tlc(SPEC / "Statements.tla", _cfg(d / "sim.cfg", sim_c, seed), workers=6, timeout=to, coverage=False)),
+        # (d) the def-use chain family (long dependency chains, readers before / between / after the edited statement)
+        ("chain", lambda: core.run_tlc(SPEC / "Statements.tla", _cfg(d / "chain.cfg", ch_c, seed), workers=4, timeout=to, coverage=False)),
     ]
     ths = [threading.Thread(target=run, args=j) for j in jobs]
     for t in ths:
@@ -89,15 +94,17 @@ def _tlc_cases(tier: str, seed: int, v: core.Verdict):
     core.require_actions(out["cov"], ["DoAssign", "DoGuarded", "DoOde"], "Statements.tla")
     core.tlc_stats_into(v, out["ex"])
     v.add_coverage(states=out["sim"].distinct, transitions=out["sim"].generated)
+    v.add_coverage(states=out["chain"].distinct, transitions=out["chain"].generated)
     v.add_coverage(
-        tlc_constants={"exhaustive": ex_c, "thinned_subtree": sim_c},
+        tlc_constants={"exhaustive": ex_c, "thinned_subtree": sim_c, "chain_family": ch_c},
+        tlc_chain_programs=out["chain"].distinct,
         tlc_exhaustive_programs=out["ex"].distinct,
         tlc_subtree_programs=out["sim"].distinct,
         tlc_wall_s={k: round(out[k].wall, 1) for k in out},
         design_theorems_checked=INVARIANTS[:-1],
     )
     ex = [c for tag, c in out["ex"].prints if tag == "CASE"]
-    sim = [c for tag, c in out["sim"].prints if tag == "CASE"]
+    sim = [c for tag, c in out["sim"].prints if tag == "CASE"] + [c for tag, c in out["chain"].prints if tag == "CASE"]
     if not ex or not sim:
         raise core.MachineryError(f"Statements.tla emitted no cases (exhaustive {len(ex)}, simulate {len(sim)})")
     # simulation revisits programs: keep distinct ones
@@ -323,7 +330,8 @@ def check_case(case, seed=0):
                 missing = sorted(set(sj["dlo"]) - got)
                 if missing:
                     kind = "leaf" if set(missing) & TRUE_LEAVES else "initial_value_of_assigned_symbol"
-                    bad("dependencies", "missing_dependency", f"dependencies({s}) = {sorted(got)} lacks {missing} (value {sj['val']})", missing_kind=kind, **kw)
+                    bad("dependencies", "missing_dependency", f"dependencies({s}) = {sorted(got)} lacks {missing} (value {sj['val']})", missing_kind=kind,
+                        transcription_predicts_loss=bool(sj["initlost"]), **kw)
                 if case["nore"]:
                     extra = sorted((got & TRUE_LEAVES) - set(sj["dup"]))
                     if extra:
@@ -502,7 +510,7 @@ def main(tier: str, seed: int) -> int:
     import pharmpy.modeling  # noqa: F401
 
     rng = random.Random(seed)
-    budget = {"quick": (6000, 1500), "thorough": (60000, 20000)}[tier]
+    budget = {"quick": (6000, 5000), "thorough": (60000, 40000)}[tier]
     rng.shuffle(ex)
     rng.shuffle(sim)
     work = ex[: budget[0]] + sim[: budget[1]]
